@@ -31,7 +31,7 @@ def strategy(tier):
   P = 2 if tier == 'quick' else 4
   perms = st.lists(st.integers(0, 10**6), min_size=P, max_size=P)
   return st.one_of(st.fixed_dictionaries({'perms': perms, 'h': O.history('formula', 1, 10)}),
-                   st.fixed_dictionaries({'perms': perms, 'h': O.history('rowchains', 2, 10, max_ops=3)}))
+                   st.fixed_dictionaries({'perms': perms, 'h': O.history('rowchains', 2, 10, max_ops=3, focus='rowchains')}))
 
 
 def make_permuted_engine(seed, stats):
@@ -74,7 +74,7 @@ def run_case(case):
         return True
       snap = tw.snapshot()
       structural, cells = eqv.cells_diff(s.after, snap)
-      real, dropped = cycle_filter(cells, lambda t, c: col_kind(s.after, t, c))
+      real, dropped = cycle_filter(cells, lambda t, c: col_kind(s.after, t, c), formulas_by_col(hr.doc))
       if dropped:
         out.cls('cycle-error-kind-differs(not judged)')
       if structural or real:
